@@ -417,8 +417,16 @@ func ExtractRule(ctx *Context, fact Map, required bool) (Map, error) {
 			expires, have := fact["expires"]
 			Log(DEBUG, ctx, "ExtractRule", "expires", expires)
 			if have {
-				// ToDo: Probably shouldn't modify given fact this way.
-				vv["expires"] = expires
+				// The given fact is the stored one, which other
+				// requests read at the same time: hand out a
+				// (shallow) copy of the body with the expiry
+				// instead of writing into the stored body.
+				body := make(map[string]interface{}, len(vv)+1)
+				for k, v := range vv {
+					body[k] = v
+				}
+				body["expires"] = expires
+				return body, nil
 			}
 			return vv, nil
 		default:
